@@ -203,4 +203,20 @@ func (s *ResettableKeystore) bufferKeys(ctx context.Context, keys []mh.Multihash
   ghost at append(s.buf): assert(len($app) <= len(keys) && all(i, 0, len($app), $app[i] == keys[i])); $done = $done + len($app)
   ghost at assign(keys): $done = $done
   ghost at recv(s.close): assert(true)
+
+# C14: every request ResetCids hands to the worker is an exchange it completes:
+# the worker answers on an UNBUFFERED channel, so a request whose answer is not
+# awaited leaves the worker goroutine blocked on that send for ever (every
+# later operation and Close, which waits for the worker, would hang).
+func (s *ResettableKeystore) ResetCids(ctx context.Context, keysChan <-chan cid.Cid) error
+  props C14 C20
+  ghostvar $pending int = 0
+  modifies *
+  ensures [every-request-to-the-worker-is-awaited] $pending == 0
+  # ASSUMED (listed): the answer channel travels inside the request and is only
+  # ever sent on by the worker (handleResetOp), never closed
+  recv_delivers opsChan
+  ghost at send(s.resetOps): $pending = $pending + 1
+  ghost at recv(opsChan): $pending = $pending - 1
+  ghost at go(func): assert(true)
 @*/
